@@ -28,8 +28,13 @@ def run_one(sid):
             env = dict(os.environ, VERIF_REPO=wt)
             p = subprocess.run(['bin/check', prop, '--tier', 'quick'], cwd=HERE, capture_output=True, text=True, env=env)
             viol = [l for l in p.stdout.split('\n') if l.startswith('VIOLATION')]
-            rows.append((sid, meta['property'], prop, 'exit %d, %d VIOLATION line(s), %.0fs%s' % (
-                p.returncode, len(viol), time.time() - t, '' if p.returncode == 1 and viol else '  <-- NOT CAUGHT')))
+            if meta.get('obsolete_after_fix'):
+                verdict = '' if p.returncode == 0 else '  <-- UNEXPECTED'
+                note = ' (expected exit 0: since fix %s in /repo this change no longer alters any output, see meta.json)' % meta['obsolete_after_fix']
+            else:
+                verdict = '' if p.returncode == 1 and viol else '  <-- NOT CAUGHT'
+                note = ''
+            rows.append((sid, meta['property'], prop, 'exit %d, %d VIOLATION line(s), %.0fs%s%s' % (p.returncode, len(viol), time.time() - t, note, verdict)))
     finally:
         sh('git -C %s worktree remove --force %s' % (REPO, wt))
     return rows
